@@ -20,6 +20,7 @@ import (
 	"github.com/mutagen-io/mutagen/pkg/synchronization"
 	"github.com/mutagen-io/mutagen/pkg/synchronization/core"
 	"github.com/mutagen-io/mutagen/pkg/synchronization/endpoint/local"
+	"github.com/mutagen-io/mutagen/pkg/synchronization/endpoint/remote"
 	"github.com/mutagen-io/mutagen/pkg/synchronization/rsync"
 	urlpkg "github.com/mutagen-io/mutagen/pkg/url"
 
@@ -39,13 +40,25 @@ type diskState struct {
 	mu         sync.Mutex
 	stamp      int64            // base of the modification time counter (seconds)
 	stampNanos int64            // strictly increasing offset in nanoseconds
+	backNanos  int64            // strictly increasing offset below the base, for backdated files
 	userEdit   map[string]int64 // side:path -> sequence number of the last user edit
 	lastSnap   map[string]*core.Entry
 	scanStart  map[string]int64
 	transStart map[string]int64
-	gated      map[string]bool // activities whose syscalls park at gates
+	gated      map[string]bool  // activities whose syscalls park at gates
+	freshAt    map[string]int64 // side -> sequence at which a returned snapshot equalled the disk (0: last one did not); under h.mu
+	transEnd   map[string]int64 // side -> sequence at which the last transition returned; under h.mu
 	canaryHash string
 	staging    string
+	midcycle   *midcycleEvent // under mu
+}
+
+// midcycleEvent is a user action that strikes just before the Nth hooked
+// system call of one activity on one side, counted from when it was armed.
+type midcycleEvent struct {
+	side, activity string
+	countdown      int
+	fire           func()
 }
 
 var stackLabels = []simkit.StackLabel{
@@ -67,7 +80,7 @@ func (h *harness) setupDisk() error {
 	}
 	d := &diskState{h: h, base: base, roots: map[string]string{"alpha": filepath.Join(base, "alpha"), "beta": filepath.Join(base, "beta"), "gamma": filepath.Join(base, "gamma")},
 		canary: filepath.Join(base, "canary"), stamp: 1_000_000_000, userEdit: map[string]int64{}, lastSnap: map[string]*core.Entry{},
-		scanStart: map[string]int64{}, transStart: map[string]int64{}, gated: map[string]bool{}}
+		scanStart: map[string]int64{}, transStart: map[string]int64{}, gated: map[string]bool{}, freshAt: map[string]int64{}, transEnd: map[string]int64{}}
 	for _, r := range d.roots {
 		if err := os.Mkdir(r, 0o755); err != nil {
 			return err
@@ -216,6 +229,18 @@ func (d *diskState) hook(op string, dirfd int, path string, dirfd2 int, path2 st
 	d.h.mu.Lock()
 	settling := d.h.settling
 	d.h.mu.Unlock()
+	// A root event armed to strike in the middle of a cycle (C11).
+	d.mu.Lock()
+	if m := d.midcycle; m != nil && m.side == gateSide && m.activity == activity {
+		m.countdown--
+		if m.countdown <= 0 {
+			d.midcycle = nil
+			d.mu.Unlock()
+			m.fire()
+			d.mu.Lock()
+		}
+	}
+	d.mu.Unlock()
 	if n := s.Occur(gateSide + "." + activity); settling {
 		// The user is idle while the session settles.
 	} else if f := s.MatchFault("fs_user", gateSide+"."+activity, n); f != nil {
@@ -536,7 +561,16 @@ func (d *diskState) userOp(op simkit.Op) {
 		// In-place content edit of an existing file (same inode).
 		if st, err := os.Lstat(abs); err == nil && st.Mode().IsRegular() {
 			os.WriteFile(abs, []byte(fmt.Sprintf("content-%d", op.Int(0))), st.Mode().Perm())
-			d.touch(abs)
+			if op.Int(1) == 1 {
+				// ... restored with an older modification time (cp -p, tar x,
+				// rsync -t, a clock stepped back): strictly decreasing stamps
+				// before every forward one, so each is still unique.
+				d.backNanos += 700_000_011
+				t := time.Unix(d.stamp, -d.backNanos)
+				os.Chtimes(abs, t, t)
+			} else {
+				d.touch(abs)
+			}
 		}
 	case "mkdir":
 		if st, err := os.Lstat(abs); err != nil || !st.IsDir() {
@@ -661,18 +695,55 @@ func copyTree(src, dst string) {
 // -------------------------------------------------------- endpoint wrapper
 
 type diskEndpoint struct {
-	h     *harness
-	side  string
-	inner synchronization.Endpoint
+	h      *harness
+	side   string
+	inner  synchronization.Endpoint
+	remote bool // reached through the agent protocol over a simulated link
 }
 
 func (h *harness) connectDisk(logger *logging.Logger, url *urlpkg.URL, session string, version synchronization.Version,
 	configuration *synchronization.Configuration, alpha bool) (synchronization.Endpoint, error) {
+	side := sideName(alpha)
+	bit := int64(2)
+	if alpha {
+		bit = 1
+	}
+	if h.plan.C("remote_sides")&bit != 0 {
+		// This endpoint lives behind the agent protocol: a real endpoint
+		// server over a simulated link (fragmentation, latency, cuts).
+		n := h.s.Occur("link." + side)
+		opts := simkit.LinkOpts{FragMax: int(h.plan.C("link_frag")), ShortMax: int(h.plan.C("link_short")), Delay: time.Duration(h.plan.C("link_delay_us")) * time.Microsecond}
+		if f := h.s.MatchFault("link_cut", side, n); f != nil {
+			dir := f.S
+			if dir == "" {
+				dir = "ab"
+			}
+			opts.CutAt = map[string]int{dir: int(f.Arg)}
+			h.mu.Lock()
+			h.ideal = false
+			h.cycleClean = false
+			h.mu.Unlock()
+		}
+		link := h.s.NewLink(fmt.Sprintf("agent.%s.%d", side, n), opts)
+		h.s.Go(fmt.Sprintf("server.%s.%d", side, n), func() {
+			err := remote.ServeEndpoint(logger.Sublogger("server"), link.B)
+			link.B.Close()
+			h.s.Logf("server."+side, "endpoint server ended (error: %v)", err != nil)
+		})
+		inner, err := remote.NewEndpoint(logger, link.A, url.Path, session, version, configuration, alpha)
+		if err != nil {
+			link.A.Close()
+			h.s.Logf("ctl."+side, "remote connect failed: %v", err)
+			return nil, err
+		}
+		h.s.Count("probe.remote_connects", 1)
+		return &diskEndpoint{h: h, side: side, inner: inner, remote: true}, nil
+	}
 	inner, err := local.NewEndpoint(logger, url.Path, session, version, configuration, alpha)
 	if err != nil {
 		return nil, err
 	}
-	return &diskEndpoint{h: h, side: sideName(alpha), inner: inner}, nil
+	return &diskEndpoint{h: h, side: side, inner: inner}, nil
 }
 
 func (e *diskEndpoint) Poll(ctx context.Context) error {
@@ -706,15 +777,35 @@ func (e *diskEndpoint) Scan(ctx context.Context, ancestor *core.Entry, full bool
 	}
 	h.s.Count("probe.disk_scans", 1)
 	d.checkCanary("after " + e.side + " scan")
-	// C12 as an invariant: when the user did nothing on this side while the
-	// scan ran, the snapshot equals the independent walker.
+	// C12 / C21 as an invariant. A full scan is exact unless the user acted on
+	// this side while it ran. Any other scan may legitimately return the
+	// snapshot of the last polling scan, which is stale until the next poll
+	// notices; but once a returned snapshot has been verified equal to the
+	// disk (freshAt) and neither the user nor a transition has touched this
+	// side since, every later snapshot must still equal the disk.
+	ref := d.walkTree(e.side)
+	fresh := snapshotMatches(snap.Content, ref)
 	h.mu.Lock()
 	userDuring := h.userSeq[e.side] > started
+	lastChange := max(h.userSeq[e.side], d.transEnd[e.side])
+	exact := (full && !userDuring) || (d.freshAt[e.side] > lastChange)
+	if fresh {
+		d.freshAt[e.side] = h.next()
+	} else {
+		d.freshAt[e.side] = 0
+	}
+	ideal := h.ideal
 	h.mu.Unlock()
-	if !userDuring && h.ideal {
-		ref := d.walkTree(e.side)
-		if !snapshotMatches(snap.Content, ref) {
-			h.s.Violate("C12", "snapshot-differs", "session-scan", "%s scan (full=%v) returned %s but the root holds %s", e.side, full, render(snap.Content), render(ref))
+	if exact && ideal {
+		if !fresh {
+			prop := "C12"
+			if e.remote {
+				// The same endpoint used locally is held to C12 by the other
+				// disk scenarios; through the protocol the snapshot must be
+				// reconstructed exactly (C21).
+				prop = "C21"
+			}
+			h.s.Violate(prop, "snapshot-differs", "session-scan", "%s scan (full=%v, remote=%v) returned %s but the root holds %s", e.side, full, e.remote, render(snap.Content), render(ref))
 		}
 		h.s.Count("probe.scans_checked_against_walker", 1)
 	}
@@ -799,6 +890,9 @@ func (e *diskEndpoint) Transition(ctx context.Context, transitions []*core.Chang
 	d.mu.Lock()
 	d.transStart[e.side] = 0
 	d.mu.Unlock()
+	h.mu.Lock()
+	d.transEnd[e.side] = h.next()
+	h.mu.Unlock()
 	d.checkCanary("after " + e.side + " transition")
 	h.s.Count("probe.disk_transitions", 1)
 	if err != nil {
@@ -818,7 +912,11 @@ func (e *diskEndpoint) Transition(ctx context.Context, transitions []*core.Chang
 	for i, t := range transitions {
 		h.pending[e.side] = append(h.pending[e.side], pendingResult{t.Path, cloneEntry(results[i])})
 	}
-	userAfter := h.userSeq[e.side] > invoked
+	// The results can only be held to the disk when the snapshot this plan was
+	// computed from was verified equal to the disk and the user has not acted
+	// on this side since (a transition refuses content that changed after the
+	// scan and then reports the entry it expected, by design).
+	userAfter := h.userSeq[e.side] > invoked || d.freshAt[e.side] == 0 || h.userSeq[e.side] > d.freshAt[e.side]
 	h.mu.Unlock()
 	// C10 / C09 (fault-free part): what the call reports is what is on disk,
 	// and every file it reports as created carries the planned digest.
